@@ -140,6 +140,9 @@ impl<T: Sync + Send + 'static> Worker<T> {
             let _verif_blocking = crate::verif::Blocking::new("par.scan");
             self.matches.par_extend(items);
             self.last_snapshot = end;
+            // the parallel scan records in-flight items in arbitrary order but
+            // `remove_in_flight_matches` relies on ascending indices
+            self.in_flight.sort_unstable();
         }
     }
 
